@@ -287,6 +287,41 @@ fn gen_merged(rng: &mut Rng, max_len: u64) -> Case {
     Case { kind: "dup", w, d, tick_us, base_us: BASE_US, table, msgs }
 }
 
+/// sub-tick streams (1 tick = 1 us): lifecycle starts and reception times off the 0.1 ms timestamp grid by
+/// {0,1,49,50,99,100,101} us, two or three lifecycles/ECUs in parallel, control requests and capped messages (placed at their
+/// us reception time) among normal ones, arrival order often reversed w.r.t. the calculated time - calculated times
+/// less than 0.1 ms apart are different times
+fn gen_subtick(rng: &mut Rng, max_len: u64) -> Case {
+    let offs = [0i64, 1, 49, 50, 99, 100, 101];
+    let n_lc = rng.range(2, 3) as usize;
+    let w = rng.range(1, 5) as u8;
+    let d = *rng.pick(&[500i64, 2_000, 1_000_000, 2_000_000]);
+    let t0: i64 = 30_000_000; // first reception time (us after base)
+    let table: Vec<(u32, i64)> = (0..n_lc).map(|i| (i as u32 + 1, 1_000_000 + 700_000 * i as i64 + *rng.pick(&offs))).collect();
+    let n = rng.range(2, max_len.clamp(4, 60)) as usize;
+    let spread = *rng.pick(&[0i64, 300, 20_000, 400_000]); // how far the stream advances per message (0: everything in one window)
+    let mut t = t0;
+    let mut rx = t0;
+    let mut msgs = Vec::with_capacity(n);
+    for _ in 0..n {
+        t += if spread == 0 { 0 } else { rng.range(0, spread as u64) as i64 };
+        let k = rng.below(n_lc as u64) as usize;
+        let start = table[k].1;
+        // calculated time aimed at: t plus / minus up to 150 us, snapped onto this lifecycle's timestamp grid
+        let aim = t + rng.range(0, 300) as i64 - 150;
+        let mut ts = ((aim - start) / 100) * 100;
+        let calc = start + ts;
+        // received after everything before and not before its calculated time, a few us later
+        rx = rx.max(calc) + *rng.pick(&offs) % 60 + rng.below(3) as i64;
+        let ctrl = rng.chance(1, 8);
+        if !ctrl && rng.chance(1, 10) {
+            ts = ((rx - start) / 100 + rng.range(1, 3) as i64) * 100; // timestamp beyond rx: capped at the us reception time
+        }
+        msgs.push(Msg { index: msgs.len() as u32, ecu: format!("EC{}", (b'A' + k as u8) as char), lc: table[k].0, rx, ts, ctrl });
+    }
+    Case { kind: "subtick", w, d, tick_us: 1, base_us: 1_000_000_000, table, msgs }
+}
+
 // ------------------------------------------------------------------------------------------------ bursts
 /// one linear family of messages: message j has k = j / q, rx = rx0 + k*rxs, ts = ts0 + k*tss (ticks of 100 us = 1 dms),
 /// index = uid = idx0 + j
@@ -558,7 +593,7 @@ fn main() {
             // (tick_us / base / kind are only present in replay files written by the check from a recorded case)
             let tick_us = scn["tick_us"].as_u64().unwrap_or(TICK_US);
             let c = Case {
-                kind: match scn["kind"].as_str() { Some("rand") => "rand", Some("det") => "det", Some("dup") => "dup", _ => "scn" },
+                kind: match scn["kind"].as_str() { Some("rand") => "rand", Some("det") => "det", Some("dup") => "dup", Some("subtick") => "subtick", _ => "scn" },
                 w: scn["w"].as_u64().unwrap() as u8,
                 d: scn["d"].as_i64().unwrap(),
                 tick_us,
@@ -620,6 +655,15 @@ fn main() {
         write_case(&mut t, case, &c, &obs, &oc, json!({}));
         case += 1;
     }
+    // sub-tick streams: their own generator stream as well
+    let n_sub = a.num("--subtick", 0);
+    let mut rng_sub = Rng::new(a.num("--seed", 1) ^ 0x5B_71C);
+    for _ in 0..n_sub {
+        let c = gen_subtick(&mut rng_sub, max_len);
+        let (obs, oc) = exec_case(&c);
+        write_case(&mut t, case, &c, &obs, &oc, json!({}));
+        case += 1;
+    }
     // bursts: more messages inside the buffering window than the sorter preallocates (2^20); `--burst 1`: one such case,
     // `--burst 4`: all sizes; small bursts (with full-trace twins) always
     let n_burst = a.num("--burst", 0);
@@ -650,7 +694,7 @@ fn main() {
     t.flush();
     println!(
         "{}",
-        json!({"cases": case, "lines": t.lines, "replayed": replayed, "fast_path": fast, "slow_path": slow, "drift": drift, "drift_dup_index": drift_dup, "dup": n_dup, "burst_sizes": burst_sizes,
+        json!({"cases": case, "lines": t.lines, "replayed": replayed, "fast_path": fast, "slow_path": slow, "drift": drift, "drift_dup_index": drift_dup, "dup": n_dup, "subtick": n_sub, "burst_sizes": burst_sizes,
                "sampled": sampled, "random": n_random, "det": det_done, "det_skipped": det_skipped})
     );
 }
